@@ -514,6 +514,35 @@ STREAM_MUTANTS = [
          edits=[(MARSHAL, "        return any(\n            authorizationArea.sessionAttributes.encrypt\n            for authorizationArea in authorizationArea\n        )", "        return any(\n            authorizationArea.sessionAttributes.encrypt\n            for authorizationArea in authorizationArea[:1]\n        )")]),
     dict(id="c09-cut-any-depth", props=["C09"], rule="S5", names="separate_events",
          edits=[(OBJECT, "            and event.path == ROOT_PATH\n", "            and len(event.path) <= 2\n")]),
+    dict(id="c09-no-flush", props=["C09"], rule="S5", names="flush",
+         edits=[(OBJECT, "    if events_single_command_or_response != []:\n        yield events_single_command_or_response\n", "")]),
+    dict(id="c09-empty-message", props=["C09"], rule="S5", names="separate_events",
+         edits=[(OBJECT, "            and event.path == ROOT_PATH\n            and events_single_command_or_response != []\n", "            and event.path == ROOT_PATH\n")]),
+    dict(id="c09-append-before-cut", props=["C09"], rule="S5", names="separate_events",
+         edits=[(OBJECT, "    for event in iter(events):\n        if (", "    for event in iter(events):\n        events_single_command_or_response.append(event)\n        if ("),
+                (OBJECT, "            events_single_command_or_response = []\n        events_single_command_or_response.append(event)\n", "            events_single_command_or_response = []\n")]),
+    dict(id="c09-benign-truthiness", props=["C09"], benign=True,
+         edits=[(OBJECT, """        if (
+            isinstance(event, MarshalEvent)
+            and event.path == ROOT_PATH
+            and events_single_command_or_response != []
+        ):
+            yield events_single_command_or_response
+            events_single_command_or_response = []
+        events_single_command_or_response.append(event)
+    if events_single_command_or_response != []:
+        yield events_single_command_or_response
+""", """        if not isinstance(event, MarshalEvent) or event.path != ROOT_PATH:
+            events_single_command_or_response.append(event)
+            continue
+        if len(events_single_command_or_response) > 0:
+            yield events_single_command_or_response
+            events_single_command_or_response = []
+        events_single_command_or_response.append(event)
+    if not events_single_command_or_response:
+        return
+    yield events_single_command_or_response
+""")]),
     dict(id="c09-code-not-reset", props=["C09"], rule="S5", names="response branch",
          edits=[(OBJECT, "            yield response\n            command_code = None\n", "            yield response\n")]),
     dict(id="c09-response-path", props=["C09"], rule="S4", names="path",
